@@ -3,8 +3,10 @@ package verifh
 import (
 	"fmt"
 	"math"
+	"os"
 	"sort"
 	"strings"
+	"testing"
 
 	"pgregory.net/rapid"
 )
@@ -25,7 +27,16 @@ func nid(i int) string { return fmt.Sprintf("n%d", i) }
 // long common prefix / a common suffix.
 // None of the schemes can produce a helper-like ID (V<k>, NE<i>).
 func nameScheme(rt *rapid.T) func(int) string {
-	switch pick(rt, "id_scheme", 7) {
+	switch pick(rt, "id_scheme", 8) {
+	case 7:
+		// names composed of tokens and a separator (see composedNames): different ID pairs whose joined forms coincide
+		pool := composedNames(rt)
+		return func(i int) string {
+			if i < len(pool) {
+				return pool[i]
+			}
+			return fmt.Sprintf("c%d", i)
+		}
 	case 0, 1, 2:
 		return nid
 	case 3:
@@ -52,6 +63,38 @@ func nameScheme(rt *rapid.T) func(int) string {
 	}
 }
 
+// composedSeps: separators a map key, a log line or a debug string could join two IDs with. The first entries are the
+// library's own spelling of an edge (graph.Edge.String: From.ID + " -> " + To.ID, optionally followed by " (rev)") and are
+// drawn half of the time; the rest are the usual suspects, the empty separator (plain concatenation) included.
+var composedSeps = []string{" -> ", " -> ", "->", " -> ", "-", ":", ",", "/", "|", " ", "_", ".", "\t", "\n", "\x00", "=>", "--", "", "#", ";"}
+
+// composedNames returns a shuffled pool of distinct names: all joins of one to three tokens from a tiny alphabet with
+// one drawn separator. With such names distinct ID pairs have equal joined forms - ("a", "b<sep>a") and ("a<sep>b", "a")
+// both read "a<sep>b<sep>a" - which is exactly what an identifier-derived key (instead of the node itself) confuses.
+// Seeded change r6-m08 keyed the two-node-cycle map by the edge's string form; fixed lists of odd names never collide.
+func composedNames(rt *rapid.T) []string {
+	sep := composedSeps[pick(rt, "name_sep", len(composedSeps))]
+	toks := [][]string{{"a", "b"}, {"a", "b", ""}, {"x", "y", "z"}, {"1", "2", "12"}, {"a", "a (rev)", ""}}[pick(rt, "name_tokens", 5)]
+	seen := map[string]bool{}
+	var pool []string
+	add := func(s string) {
+		if !seen[s] {
+			seen[s] = true
+			pool = append(pool, s)
+		}
+	}
+	for _, a := range toks {
+		add(a)
+		for _, b := range toks {
+			add(a + sep + b)
+			for _, c := range toks {
+				add(a + sep + b + sep + c)
+			}
+		}
+	}
+	return rapid.Permutation(pool).Draw(rt, "name_pool_order")
+}
+
 // ---------------------------------------------------------------------------------------------------------
 // Graph families. Each returns edges over node indices; IDs are attached afterwards.
 
@@ -76,6 +119,7 @@ type GraphSpec struct {
 	Union      bool  // allow disjoint unions of 2..4 parts
 	SelfLoops  bool  // allow self-loops (in families that have them)
 	Parallel   bool  // allow parallel / antiparallel edges
+	NoGiant    bool  // never make a part a thin giant (genThinGiant)
 }
 
 // genIEdges draws one connected-or-not graph of a family on nodes 0..n-1 (n is chosen inside and returned).
@@ -380,6 +424,128 @@ func dedupe(es []iedge) []iedge {
 	return out
 }
 
+// genThinGiant draws a connected "fishbone" with n nodes: a forward spine, leaves that point INTO the spine, and a few
+// forward chords that skip one or two spine nodes. Hundreds of nodes, edges and layers for the price of a small graph:
+// every layer has one to a handful of nodes and no edge is longer than three layers under either layering (leaves
+// pointing into the spine sit one layer above their target with longest-path layering too; leaves pointing away from
+// it would all sink to the bottom layer and cost minutes in helper nodes - measured: 8 s at 210 nodes, 2.5 min at 520).
+// Measured on the unchanged tree: <= 30 ms at 330 nodes and <= 0.25 s at 1100 nodes for every positioner but
+// NetworkSimplex (0.4 s at 210 nodes, 1.4 s at 330). This is how count thresholds inside the code (components with
+// more than 128/200/256/512/1000 nodes, layers beyond 64 ...) are crossed: seeded/r6-m09 switches behaviour for
+// components with more than 200 nodes.
+func genThinGiant(rt *rapid.T, n int) []iedge {
+	var es []iedge
+	spine := []int{0}
+	for next := 1; next < n; {
+		cur := spine[len(spine)-1]
+		switch k := pick(rt, "giant_step", 10); {
+		case k < 6:
+			es = append(es, iedge{cur, next})
+			spine = append(spine, next)
+			next++
+		case k < 9:
+			es = append(es, iedge{next, cur})
+			next++
+		default:
+			if len(spine) > 3 {
+				es = append(es, iedge{spine[len(spine)-3-pick(rt, "giant_chord", 2)], cur}) // may repeat: a parallel edge
+			}
+		}
+	}
+	return es
+}
+
+// genRegularGiant draws a giant with a REGULAR structure in a systematic edge order - what programmatically produced
+// input looks like and a random fishbone never is: a path; a fishbone in which every spine node has exactly one or two
+// leaves pointing into it, the leaf edges listed before or after the spine edge that enters the node; a two-rail
+// ladder; a spine with a chord every few nodes. Iteration counts inside the code that grow with the length of such a
+// regular run (seeded/r6-m04 caps SinkColoring's align/shift rounds at 256: only a fishbone with >= 259 teeth, leaf
+// edge first, needs more) are out of reach of random structure.
+func genRegularGiant(rt *rapid.T, n int) ([]iedge, string) {
+	var es []iedge
+	switch pick(rt, "giant_shape", 6) {
+	case 5:
+		// not thin at all: a random recursive tree on 60..120 nodes (random orientations) plus a few extra edges - the
+		// shape of the small random graphs at ten times their size (seeded/r6-m03: 1 in 60 000 below 30 nodes, 1 in 400 here)
+		n = rapid.IntRange(60, 120).Draw(rt, "big_random_n")
+		for i := 1; i < n; i++ {
+			p := pick(rt, "parent", i)
+			if chance(rt, "flip", 1, 3) {
+				es = append(es, iedge{i, p})
+			} else {
+				es = append(es, iedge{p, i})
+			}
+		}
+		for k := rapid.IntRange(0, n/8).Draw(rt, "extra"); k > 0; k-- {
+			a := pick(rt, "a", n)
+			es = append(es, iedge{a, (a + 1 + pick(rt, "b", n-1)) % n})
+		}
+		return es, "big-random"
+	case 0:
+		for i := 0; i+1 < n; i++ {
+			es = append(es, iedge{i, i + 1})
+		}
+		return es, "giant-path"
+	case 1, 2:
+		legs := rapid.IntRange(1, 2).Draw(rt, "giant_legs")
+		legFirst := rapid.Bool().Draw(rt, "giant_leg_first")
+		next, prev := 0, -1
+		for next+legs < n {
+			s := next
+			next++
+			if prev >= 0 && !legFirst {
+				es = append(es, iedge{prev, s})
+			}
+			for k := 0; k < legs; k++ {
+				es = append(es, iedge{next, s})
+				next++
+			}
+			if prev >= 0 && legFirst {
+				es = append(es, iedge{prev, s})
+			}
+			prev = s
+		}
+		return es, "giant-fishbone"
+	case 3:
+		// (shapes with a cycle per rung cost the network-simplex layerer a pivot each: 80 s at 1100 nodes, so <= 330)
+		n = min(n, 330)
+		// two rails a_i = 2i, b_i = 2i+1 with rungs a_i -> b_(i+1), sometimes also b_i -> a_(i+1)
+		cross := rapid.Bool().Draw(rt, "giant_cross")
+		for i := 0; 2*i+3 < n; i++ {
+			es = append(es, iedge{2 * i, 2*i + 2}, iedge{2*i + 1, 2*i + 3}, iedge{2 * i, 2*i + 3})
+			if cross {
+				es = append(es, iedge{2*i + 1, 2*i + 2})
+			}
+		}
+		return es, "giant-ladder"
+	default:
+		n = min(n, 330)
+		every := rapid.IntRange(2, 5).Draw(rt, "giant_every")
+		for i := 0; i+1 < n; i++ {
+			es = append(es, iedge{i, i + 1})
+			if i%every == 0 && i+3 < n {
+				es = append(es, iedge{i, i + 3})
+			}
+		}
+		return es, "giant-chords"
+	}
+}
+
+func giantRegime() bool { return os.Getenv("VERIF_REGIME") == "giant" }
+
+func giantSize(rt *rapid.T) int {
+	if giantRegime() {
+		if rapid.Bool().Draw(rt, "giant_huge") {
+			return rapid.IntRange(500, 1100).Draw(rt, "giant_n")
+		}
+		return rapid.IntRange(130, 330).Draw(rt, "giant_n")
+	}
+	if chance(rt, "giant_huge", 1, 5) {
+		return rapid.IntRange(500, 1100).Draw(rt, "giant_n")
+	}
+	return rapid.IntRange(130, 330).Draw(rt, "giant_n")
+}
+
 // genGraph draws a graph according to sp: a single family member or a disjoint union, with a drawn edge order,
 // and returns it over node indices 0..n-1 together with the family label(s).
 func genGraph(rt *rapid.T, sp GraphSpec) (n int, es []iedge, label string) {
@@ -387,8 +553,48 @@ func genGraph(rt *rapid.T, sp GraphSpec) (n int, es []iedge, label string) {
 	if sp.Union && chance(rt, "union", 1, 4) {
 		parts = rapid.IntRange(2, 4).Draw(rt, "parts")
 	}
+	if giantRegime() && parts > 1 {
+		sp.MaxN, sp.MaxM = min(sp.MaxN, 6*parts), min(sp.MaxM, 8*parts) // the giant's companions stay small
+	}
 	var labels []string
+	giant := -1
+	godds := 250
+	if thorough() {
+		godds = 100
+	}
+	if v := int(envFloat("VERIF_GIANT_ODDS", 0)); v > 0 {
+		godds = v // development aid: measure what the giants alone find
+	}
+	if giantRegime() {
+		godds = 1 // the Test*Giant runs: every case has a giant part, regular or random
+	}
+	if !sp.NoGiant && chance(rt, "giant", 1, godds) {
+		giant = pick(rt, "giant_part", parts)
+	}
 	for p := 0; p < parts; p++ {
+		if p == giant {
+			gn := giantSize(rt)
+			var ges []iedge
+			glabel := "giant"
+			if chance(rt, "giant_regular", 1, 2) {
+				ges, glabel = genRegularGiant(rt, gn)
+				gn = 0
+				for _, e := range ges {
+					gn = max(gn, e[0]+1, e[1]+1)
+				}
+			} else {
+				ges = genThinGiant(rt, gn)
+			}
+			if !sp.Parallel {
+				ges = dedupe(ges)
+			}
+			for _, e := range ges {
+				es = append(es, iedge{e[0] + n, e[1] + n})
+			}
+			n += gn
+			labels = append(labels, glabel)
+			continue
+		}
 		fam := sp.Families[pick(rt, "family", len(sp.Families))]
 		psp := sp
 		if parts > 1 {
@@ -420,7 +626,11 @@ func genGraph(rt *rapid.T, sp GraphSpec) (n int, es []iedge, label string) {
 	// layer), and sometimes the orders real data comes in and a random permutation of more than five edges never
 	// produces - sorted by (source, target), sorted by (target, source), or one of those reversed
 	if len(es) > 1 {
-		switch k := pick(rt, "edge_order_kind", 12); {
+		k := pick(rt, "edge_order_kind", 12)
+		if giant >= 0 && chance(rt, "giant_as_generated", 1, 2) {
+			k = 8 // regular structure mostly comes in a regular order
+		}
+		switch {
 		case k < 8:
 			es = rapid.Permutation(es).Draw(rt, "edge_order")
 		case k < 10:
@@ -480,6 +690,19 @@ func genIDs(rt *rapid.T, n int, adversarial bool) []string {
 		ids[i] = nid(i)
 	}
 	if !adversarial {
+		return ids
+	}
+	if chance(rt, "composed_ids", 1, 4) {
+		pool := composedNames(rt)
+		for i := 0; i < n && i < len(pool); i++ {
+			ids[i] = pool[i]
+		}
+		for _, id := range ids {
+			if used[id] {
+				panic("genIDs: not injective")
+			}
+			used[id] = true
+		}
 		return ids
 	}
 	// choose a subset of nodes that get adversarial names (distinct)
@@ -697,3 +920,26 @@ var (
 	allRt        = []int{RtPolyline, RtStraight, RtOrtho, RtSplines, RtNoop}
 	allFam       = []int{FamMulti, FamSimple, FamDag, FamConn, FamTree, FamLadder, FamMotif}
 )
+
+// ---------------------------------------------------------------------------------------------------------
+// The giant regime: Test<ID>Giant runs a property's own generator and oracle with VERIF_REGIME=giant, under which
+// genGraph makes one part of every case a thin giant (130..1100 nodes; regular or random structure, see
+// genRegularGiant / genThinGiant). A few hundred cases per property: count thresholds and iteration counts that only
+// hundreds of nodes, edges or layers reach, at the price of a medium-sized random graph.
+
+func runGiant(t *testing.T, p *Property) {
+	os.Setenv("VERIF_REGIME", "giant")
+	defer os.Unsetenv("VERIF_REGIME")
+	runGenerated(t, p)
+}
+
+func TestC01Giant(t *testing.T) { runGiant(t, propC01) }
+func TestC02Giant(t *testing.T) { runGiant(t, propC02) }
+func TestC03Giant(t *testing.T) { runGiant(t, propC03) }
+func TestC04Giant(t *testing.T) { runGiant(t, propC04) }
+func TestC05Giant(t *testing.T) { runGiant(t, propC05) }
+func TestC06Giant(t *testing.T) { runGiant(t, propC06) }
+func TestC07Giant(t *testing.T) { runGiant(t, propC07) }
+func TestC08Giant(t *testing.T) { runGiant(t, propC08) }
+func TestC11Giant(t *testing.T) { runGiant(t, propC11) }
+func TestC14Giant(t *testing.T) { runGiant(t, propC14) }
